@@ -49,7 +49,7 @@ CHECKS.update({
     "C11": ("Hypothesis generated search + exhaustive small-alphabet sweep against a per-point window model",
             GEN + "durations include non-multiples of the step, shorter than a step and longer than the series; "
             "tolerances on and beside the window ranges present; all series of length <=7 over {0,0.5,1,missing} are "
-            "enumerated with 25 duration pairs and 4 tolerances.", GRID + "regular sampling (premise of the statement), steps from 1 s to a week",
+            "enumerated with 25 duration pairs and 4 tolerances.", GRID + "regular sampling (premise of the statement), steps from 1/8 s to a week",
             "DESIGN.md 4 C11"),
     "C12": ("Hypothesis generated search against a per-point trailing-window model",
             GEN + "all 8 mode combinations (std/range x none/period/min_obs/min_period), periods exactly equal to point "
@@ -59,8 +59,10 @@ CHECKS.update({
     "C13": ("Hypothesis generated search against pairwise model + mirror (reverse) metamorphic relation",
             GEN + "density increments are placed on and one grid step beside each threshold on down/up/down-up/"
             "stationary/repeated-depth casts; the reversed profile must give reversed flags when nothing is missing; "
-            "pressure profiles are compared with a direction-sign model.",
-            GRID + "pressure profiles with zero mean step are not judged", "DESIGN.md 4 C13"),
+            "pressure profiles (float, signed / unsigned integer, masked, list and Series carriers, with missing values) are "
+            "compared with a direction-sign model over the pairs whose two members are present.",
+            GRID + "pressure profiles with zero mean step are not judged; how a missing pressure itself is flagged is left "
+            "open (GOOD, UNKNOWN or MISSING)", "DESIGN.md 4 C13"),
     "C14": ("Hypothesis generated search against statement-order model with geographiclib distances",
             GEN + "positions on / beside box edges, partially missing positions, range_max exactly on a hop distance and "
             "1% beside it; shape mismatch and malformed bbox must be rejected.",
@@ -104,14 +106,16 @@ CHECKS.update({
 
 CHECKS.update({
     "C15": ("Hypothesis generated search; metamorphic carrier-equivalence relation (every carrier vs the canonical one)",
-            "One logical case per test is rendered through 11 data/auxiliary carriers (lists with None/NaN, tuple, float32, "
-            "int64, masked arrays with NaN or finite junk under the mask, pandas Series with default/shifted index, dask, "
-            "object arrays), 12 time carriers (datetime64 of four units, datetimes, Timestamps, naive and UTC-aware "
-            "DatetimeIndex/Series, epoch seconds as list/int/float) and list/tuple spans, one at a time and mixed; flags "
+            "One logical case per test is rendered through 17 data/auxiliary carriers (lists with None/NaN, tuple, float32, "
+            "int64 / int16 / unsigned, masked arrays with NaN or finite junk under the mask, integer masked arrays, a masked "
+            "array whose fill_value equals a valid value, pandas Series with default/shifted index, dask, object arrays), 23 "
+            "time carriers (datetime64 from days to nanoseconds, naive / UTC-aware / America/New_York datetimes, Timestamps, "
+            "DatetimeIndex and Series, epoch seconds as list, int64, int32, float, pandas Series and Index) and list/tuple "
+            "spans, one at a time and mixed; flags "
             "must equal those under float64 + datetime64[ns] (also for sub-second instants). valid_range_test is swept "
             "separately with and without dtype=. A further sub-check refills the *same* list / array objects with a second "
             "logical case and compares with fresh canonical arrays (identity-keyed state).",
-            "values representable in float32; dask time arrays and non-UTC zones not generated", "DESIGN.md 4 C15"),
+            "values representable in float32 for the float32 carrier; dask time arrays not generated", "DESIGN.md 4 C15"),
 })
 
 CHECKS.update({
